@@ -211,7 +211,7 @@ def C01(tier, rng):
         cs.append(Case('dec.name %s' % hx(b), 'graph'))
     cs += growth_straddle_cases('dec.dns', tier)
     cs += sweep_wire_cases('dec.dns', both_layouts=False) + sweep_rr_wire_cases()
-    cs += header_count_cases() + label_length_octet_cases() + reserved_label_type_cases()
+    cs += header_count_cases() + label_length_octet_cases() + reserved_label_type_cases() + unicode_validator_cases()
     if tier != 'thorough':
         return cs
     return c01_thorough_chunks(cs)
@@ -351,6 +351,23 @@ def label_length_octet_cases():
             w = b''.join(bytes([len(l)]) + l for l in labs) + b'\0'
             cs.append(Case('dec.name %s' % hx(w), 'name-limit-utf8'))
             cs.append(Case('dec.dns %s' % hx(b'\0\0\0\0\0\1' + b'\0' * 6 + w + b'\0\1\0\1'), 'name-limit-utf8'))
+    return cs
+
+def unicode_validator_cases():
+    """CAA tags, X25/ISDN addresses and ISDN subaddresses whose characters are alphanumeric / digits / hex digits in UNICODE but
+    not in ASCII (a validator written with `is_alphanumeric` / `is_numeric` / `is_digit(16)` on `char` instead of the
+    `is_ascii_*` tests accepts them), on the wire as stand-alone records and inside a message"""
+    cs = []
+    odd = [b'\xc3\xa9', b'\xd9\xa3', b'\xc2\xb2', b'\xef\xbc\xa1', b'\xef\xbc\x91', b'\xe0\xa5\xa7', b'\xce\xb1', b'\xe2\x85\xa7', b'\xf0\x9d\x9f\x97']
+    def rr(ty, rd): return b'\1x\0' + ty.to_bytes(2, 'big') + b'\0\1\0\0\0\x3c' + len(rd).to_bytes(2, 'big') + rd
+    cstr = lambda s: bytes([len(s)]) + s
+    for o in odd:
+        for s in (o, b'a' + o, o + b'1', b'issue' + o, o * 3):
+            wires = [rr(257, b'\0' + cstr(s) + b'v'), rr(19, cstr(s)), rr(19, cstr(b'123' + s)), rr(20, cstr(s)), rr(20, cstr(b'12') + cstr(s)),
+                     rr(20, cstr(b'12') + cstr(b'aF' + s))]
+            for w in wires:
+                cs.append(Case('dec.rr %s' % hx(w), 'unicode-validator'))
+                cs.append(Case('dec.dns %s' % hx(b'\0\1\x81\x80\0\0\0\1\0\0\0\0' + w), 'unicode-validator'))
     return cs
 
 def reserved_label_type_cases():
@@ -552,7 +569,7 @@ def C03(tier, rng):
     for fam, size in ((1, 4), (2, 16)):
         cs += neighbour_cases(fam, size, tier, rng)
     cs += sweep_wire_cases('dec.dns') + sweep_rr_wire_cases()
-    cs += svcb_every_len_cases() + header_count_cases() + label_length_octet_cases()
+    cs += svcb_every_len_cases() + header_count_cases() + label_length_octet_cases() + unicode_validator_cases()
     cs += reserved_label_type_cases() + dnskey_flag_cases(tier)
     cs += long_rdata_name_cases() + odd_label_wire_cases()
     return cs
